@@ -106,9 +106,11 @@ theorem abs_denotes (es : List Ev) (s : St) (h : model.run model.init es = some 
     Denotes s.heap s.top (abs s) :=
   abs_denotes_of_ord s (reachable_ord es s h)
 
-/-- **C12 (monitor form).** Every observable trace of the model is accepted by `monC12` (no non-zero
+/-- **C12 (monitor form).** Every observable trace of the model is accepted by `monC12`: (1) no non-zero
 value is popped more often than its `Push` was invoked — with distinct values: never twice and never
-before its push was invoked). -/
+before its push was invoked; (2) a `Pop` returns the zero value only if the stack can be empty during
+the call: the values whose `Push` returned before the `Pop` was invoked and that no `Pop` has returned
+are not more than the other `Pop`s in flight. -/
 theorem C12_obs_lifo (es : List Ev) (s : St) (h : model.run model.init es = some s) :
     monC12.accepts (es.filterMap model.obs) = true :=
   monC12_of_linearizable _ (treiber_linearizable es s h)
